@@ -9,6 +9,8 @@ import (
 	"go/constant"
 	"go/parser"
 	"go/token"
+
+	"golang.org/x/tools/go/ssa"
 	"go/types"
 	"strconv"
 	"strings"
@@ -27,6 +29,8 @@ type Env struct {
 	oldNow   Term
 	pkg      *types.Package
 	useCells bool
+	outer1   int             // > 0: frame outer1-1 is visible too (an inlined helper sees the enclosing function)
+	loopHdr  *ssa.BasicBlock // set while a loop contract is evaluated (head / back edge)
 	cf       *ContractFile
 	where    string
 	// state at entry of the function under verification (nil map + epoch 0) or,
@@ -224,6 +228,9 @@ func (e *Env) ident(name string) Value {
 		return Value{T: NullT}
 	}
 	x := e.x
+	if v, ok := e.rangeKey(name); ok {
+		return v
+	}
 	if e.useCells && e.fi >= 0 && e.fi < len(e.st.frames) {
 		fr := e.st.frames[e.fi]
 		for i := len(fr.order) - 1; i >= 0; i-- {
@@ -242,9 +249,12 @@ func (e *Env) ident(name string) Value {
 				return Value{T: v, Typ: ft}
 			}
 		}
-		// free variables of a closure
+		// free variables of a closure (a captured parameter of the enclosing
+		// function also answers to the name that function's contract header
+		// gives the parameter: renaming it in the source keeps the clause bound)
 		for i, fv := range fr.fn.FreeVars {
-			if fv.Name() == name && i < len(fr.bind) {
+			alias := x.freeVarAlias(fr.fn, fv)
+			if (fv.Name() == name || (alias != "" && alias == name)) && i < len(fr.bind) {
 				b := fr.bind[i]
 				if b.Loc != nil {
 					return x.loadLoc(e.st, b.Loc, nil, "")
@@ -287,8 +297,53 @@ func (e *Env) ident(name string) Value {
 			}
 		}
 	}
+	if e.outer1 > 0 && e.outer1-1 < len(e.st.frames) && e.outer1-1 != e.fi {
+		n := *e
+		n.fi, n.outer1, n.loopHdr = e.outer1-1, 0, nil
+		return n.ident(name)
+	}
 	e.fail("unknown identifier %q", name)
 	return Value{}
+}
+
+// rangeKey: in a loop contract of `for k := range slice`, k means the index of
+// the iteration about to start (hidden index + 1), as it does in an invariant
+// written for `for k := 0; k < n; k++`. The variable itself exists only
+// inside the body, one per iteration.
+func (e *Env) rangeKey(name string) (Value, bool) {
+	if e.loopHdr == nil || e.fi < 0 || e.fi >= len(e.st.frames) {
+		return Value{}, false
+	}
+	fr := e.st.frames[e.fi]
+	for _, b := range e.loopHdr.Succs {
+		if len(b.Preds) != 1 {
+			continue
+		}
+		for _, in := range b.Instrs {
+			st, ok := in.(*ssa.Store)
+			if !ok {
+				continue
+			}
+			al, ok := st.Addr.(*ssa.Alloc)
+			if !ok || al.Comment != name {
+				continue
+			}
+			ld, ok := st.Val.(*ssa.UnOp)
+			if !ok || ld.Op != token.MUL {
+				continue
+			}
+			ri, ok := ld.X.(*ssa.Alloc)
+			if !ok || ri.Comment != "rangeindex" {
+				continue
+			}
+			if c, ok := fr.allocs[ri]; ok {
+				if v, ok := e.st.cells[c]; ok {
+					return Value{T: Add(v.T, IntLit(1)), Typ: types.Typ[types.Int]}, true
+				}
+			}
+		}
+	}
+	return Value{}, false
 }
 
 func (e *Env) constVal(v constant.Value, t types.Type) Value {
@@ -826,6 +881,24 @@ func (e *Env) call(c *ast.CallExpr) Value {
 		}
 		so, _ := strconv.Unquote(lit.Value)
 		return Value{T: x.decls.Fresh("arbitrary", so)}
+	case "typed":
+		// typed(v, "*actor.PID"): the same term, read as a value of that Go type
+		// (elements of ghost arrays have no Go type of their own)
+		v := e.eval(args[0])
+		lit, ok := args[1].(*ast.BasicLit)
+		if !ok {
+			e.fail("typed needs a type string")
+		}
+		ts, _ := strconv.Unquote(lit.Value)
+		te, err := parser.ParseExpr(ts)
+		if err != nil {
+			e.fail("typed: bad type %q", ts)
+		}
+		ty := e.lookupType(te)
+		if ty == nil {
+			e.fail("typed: unknown Go type %q", ts)
+		}
+		return Value{T: v.T, Typ: ty}
 	case "ctxcancel":
 		v := e.eval(args[0])
 		x.decls.Fun("ctxcancel", []string{"Iface"}, "Ref")
@@ -932,4 +1005,30 @@ func (e *Env) call(c *ast.CallExpr) Value {
 	}
 	e.fail("unknown spec function %q", name)
 	return Value{}
+}
+
+// freeVarAlias: a captured parameter of the enclosing function also answers to
+// the name that function's contract header gives the parameter.
+func (x *Exec) freeVarAlias(fn *ssa.Function, fv *ssa.FreeVar) string {
+	par := fn.Parent()
+	if par == nil {
+		return ""
+	}
+	pc := x.contractFor(par)
+	if pc == nil {
+		return ""
+	}
+	off := 0
+	if par.Signature.Recv() != nil {
+		off = 1
+	}
+	if len(pc.ParamNames) != len(par.Params)-off {
+		return ""
+	}
+	for k, pp := range par.Params {
+		if pp.Name() == fv.Name() && k-off >= 0 {
+			return pc.ParamNames[k-off]
+		}
+	}
+	return ""
 }
